@@ -79,9 +79,9 @@ func cmdRun(prop string, args []string) int {
 		Bounds: map[string]any{}}
 	if *budget == 0 {
 		if c.Quick() {
-			*budget = 6 * time.Minute
+			*budget = 12 * time.Minute
 		} else {
-			*budget = 45 * time.Minute
+			*budget = 60 * time.Minute
 		}
 	}
 	c.Deadline = c.Start.Add(*budget)
